@@ -136,6 +136,8 @@ Definition step (args : list bytes) (w : world) : bytes * world * list bytes :=
   else if is_op "parse" c then
     let '(t, p, r) := p_targ r in
     let '(x, w') := targ_to_dt t (with_libs w p no_zone) in (out_res o_dt x, w', r)
+  else if is_op "rparse" c then
+    let '(t, r) := take1 r in (out_res o_dt (iso_parse_re t), w, r)
   else if is_op "marsh" c then
     let '(k, r) := take1 r in
     if is_op "N" k then let '(x, w') := marshall_now None w in (out_res o_mrec x, w', r)
